@@ -133,6 +133,49 @@ def py_sweep(ctx, rec):
     return fails
 
 
+def py_stateless(ctx, rec):
+    """resolve() must be a function of (parameters, FN) alone: ONE HoppingParams object is walked through consecutive
+    frames across every superframe boundary (all 2048 of them), through a long consecutive run, across the hyperframe
+    wrap and then in scrambled order; every answer is compared with the specification (history independence)."""
+    import random as _r
+    HY = 2715648
+    rng = _r.Random(ctx.seed)
+    fails = []
+    n_eval = n_dev = 0
+    params = [(0, 0, 5), (0, 3, 64), (1, 0, 3), (17, 2, 7), (63, 63, 64), (32, 1, 33), (5, 0, 1), (44, 10, 12)]
+    params += [(rng.randrange(64), rng.randrange(64), rng.randrange(1, 65)) for _ in range(6 if ctx.tier == "quick" else 40)]
+    for (hsn, maio, n) in params:
+        ma = [100 + 3 * i for i in range(n)]
+        hp = gsm_shared.HoppingParams(hsn, maio, ma)
+        seqs = []
+        for k in range(1, 2048):
+            seqs.append(range(k * 1326 - 2, k * 1326 + 3))
+        seqs.append(range(0, 8000))
+        seqs.append(list(range(HY - 1500, HY)) + list(range(0, 1500)))
+        scr = [rng.randrange(HY) for _ in range(3000)]
+        seqs.append(scr)
+        seqs.append(sorted(scr))
+        seqs.append(list(reversed(range(1326 * 63 - 5, 1326 * 64 + 5))))
+        bad = None
+        for sq in seqs:
+            for fn in sq:
+                got = hp.resolve(fn)
+                e = ma[ref_hop.mai(hsn, maio, n, fn)]
+                n_eval += 1
+                if got != e and bad is None:
+                    bad = {"hsn": hsn, "maio": maio, "n": n, "fn": fn, "got": got, "exp": e}
+        if bad and not fails:
+            fails.append(Failure("py_stateless", bad, "c07:py-resolve-depends-on-history",
+                                 "one HoppingParams object walked through consecutive frames: resolve(%d) hsn=%d maio=%d N=%d -> %r, spec %r" % (
+                                     bad["fn"], hsn, maio, n, bad["got"], bad["exp"])))
+    rec.bulk(n_eval, n_eval, {"py:stateless-walk": n_eval}, [{"params": params[3], "walk": "consecutive frames around every k*1326, 0..8000, the wrap, scrambled"}])
+    return fails
+
+
+def py_stateless_replay(case):
+    raise HarnessError("deterministic enumeration: re-run the check")
+
+
 def py_replay(case):
     if "ma" not in case:
         return hyp_oracle(case)
@@ -213,8 +256,10 @@ def fw_replay(case):
 SUBS = [
     Sub("fw_enumeration", fn=fw_sweep),
     Sub("py_enumeration", fn=py_sweep),
+    Sub("py_stateless", fn=py_stateless),
     Sub("three_way_random", strategy=hop_case(), oracle=hyp_oracle, examples={"quick": 3000, "thorough": 40000},
         shards={"quick": 1, "thorough": 8}, prepare=prepare),
 ]
 SUBS[0].replay = fw_replay
 SUBS[1].replay = py_replay
+SUBS[2].replay = py_stateless_replay
